@@ -29,7 +29,9 @@ RULE = ("exhaustive product of __conform__ behaviour (11) x provided (2) x alter
         "a real AdapterRegistry.adapter_hook installed in adapter_hooks; a random stream with longer chains and "
         "hooks raising AttributeError/TypeError.  Every case is non-trivial (it runs the call); distinct = "
         "distinct (conform kind, provided, hook kinds, alternate given, chain shape) signature")
-TRUSTED_BASE = ["instrumentation of the external steps by side-effecting callables / __getattribute__ in "
+TRUSTED_BASE = ["interpreters Model/PyKernel.v and Model/CKernel.v (semantics of the statement languages and of the C API "
+                "calls that occur in IB__call__/IB__adapt__) and the fail-closed translators harness/translate/adapt_py.py, adapt_c.py",
+                "instrumentation of the external steps by side-effecting callables / __getattribute__ in "
                 "harness/drivers/c14_driver.py (validated by the correspondence in both modes)"]
 ASSUMPTIONS = ["hooks, __conform__ and custom __adapt__ do not mutate adapter_hooks or the object's declarations "
                "during the call (the C loop reads the list length once)",
@@ -372,17 +374,31 @@ def replay_text(case, obs, mode):
         L += ["class I0(Interface):", "    pass"]
         base = "I0"
     for i, l in enumerate(case["chain"]):
-        L.append("class I%d(%s):" % (i, base))
+        plain = l.get("plain", False)
+        deco = [] if plain else ["    @interfacemethod"]
+        sup = "super(IC%d, self)" % i if plain else "super()"
+        if plain:
+            L.append("class IC%d(type(%s)):   # a plain subclass of the interface class" % (i, base))
+        else:
+            L.append("class I%d(%s):" % (i, base))
         body = []
         a = l["adapt"]
         if a is not None:
-            body += ["    @interfacemethod", "    def __adapt__(self, obj):", "        log.append('custom __adapt__ level %d')" % i]
+            body += deco + ["    def __adapt__(self, obj):", "        log.append('custom __adapt__ level %d')" % i]
             body.append({"none": "        return None", "value": "        return ('custom value', %d)" % i,
                          "raise": "        raise %s('custom')" % {"attr": "AttributeError", "type": "TypeError", "other": "ValueError"}.get(a[1] if len(a) > 1 else "", "ValueError"),
-                         "delegate": "        return super().__adapt__(obj)"}[a[0]])
+                         "delegate": "        return %s.__adapt__(obj)" % sup}[a[0]])
+        pv = l.get("prov")
+        if pv is not None:
+            body += deco + ["    def providedBy(self, obj):", "        log.append('custom providedBy level %d')" % i]
+            body.append({"true": "        return True", "false": "        return False",
+                         "raise": "        raise %s('providedBy')" % {"attr": "AttributeError", "type": "TypeError", "other": "ValueError"}.get(pv[1] if len(pv) > 1 else "", "ValueError"),
+                         "delegate": "        return %s.providedBy(obj)" % sup}[pv[0]])
         if l["other"]:
-            body += ["    @interfacemethod", "    def extra_method(self):", "        return %d" % i]
+            body += deco + ["    def extra_method(self):", "        return %d" % i]
         L += body or ["    pass"]
+        if plain:
+            L.append("I%d = IC%d('I%d', (%s,), {})" % (i, i, i, base))
         base = "I%d" % i
     L += ["I = %s" % base, ""]
     c = case["conform"]
@@ -461,16 +477,24 @@ def replay_text(case, obs, mode):
 
 
 TECHNIQUE = ("Coq proof over a Gallina transcription of InterfaceBase.__call__/__adapt__/_call_conform, IB__call__/"
-             "IB__adapt__ and the _CALL_CUSTOM_ADAPT logic of InterfaceClass.__new__; exhaustive vm_compute "
-             "correspondence (outcome and step log) with both implementations")
-LEVEL_TEXT = ("Machine-checked theorems (Properties/C14.v, 11 theorems, closed under the global context) state, for every "
+             "IB__adapt__ and the _CALL_CUSTOM_ADAPT/_CALL_CUSTOM_PROVIDEDBY logic of InterfaceClass.__new__/"
+             "__init_subclass__; the Python and C kernels are regenerated from the source text on every run by "
+             "fail-closed translators and proved equal to the model; exhaustive vm_compute correspondence (outcome and "
+             "step log) with both implementations")
+LEVEL_TEXT = ("Machine-checked theorems (Properties/C14.v, 14 theorems, closed under the global context) state, for every "
               "__conform__ behaviour, every hook list, every alternate and every interfacemethod inheritance chain, that "
               "outcome and executed steps are those of the five-step precedence, that later steps never run, that "
               "exceptions propagate, that a custom __adapt__ replaces the provided-check and hooks, and that the C fast "
-              "path equals the Python path; the models are compared with both implementations on the full finite product "
+              "path equals the Python path; two further theorems state that the kernels regenerated on this run from "
+              "interface.py (__call__, __adapt__, _call_conform, the flag conditions of __new__/__init_subclass__) and from "
+              "_zope_interface_coptimizations.c (IB__call__, IB__adapt__) compute exactly the model's py_call / c_call for all "
+              "inputs; the models are compared with both implementations on the full finite product "
               "of behaviours with hook lists up to length 3 (thorough: 4) on every run, and the observed outcome and step "
               "log are judged by the Spec inside Coq.")
-LEVEL_NOTE = ("Trusted: Coq kernel/vm_compute; the hand-written transcription of the Python and C code (validated by the "
-              "exhaustive correspondence); the driver's instrumentation.  Not modelled: hooks that mutate adapter_hooks "
+LEVEL_NOTE = ("Trusted: Coq kernel/vm_compute; the interpreters of the two kernel languages (Model/PyKernel.v, Model/CKernel.v: "
+              "meaning of each statement form and API call) and the translators' tables (harness/translate/adapt_py.py, "
+              "adapt_c.py: reference counting dropped, the inlined provided-check of IB__adapt__ pinned token by token), both "
+              "validated by the exhaustive correspondence; the class-construction part of InterfaceClass.__new__ (which "
+              "classes are created) stays a hand-written model; the driver's instrumentation.  Not modelled: hooks that mutate adapter_hooks "
               "during the call, multiple-inheritance metaclass mixes, security-proxied declarations in IB__adapt__; the "
               "registry hook is abstract (a hook answering queryAdapter), tied by a stream with a real AdapterRegistry.")
